@@ -36,6 +36,7 @@ import KafkaVerif.Lemmas.ConnLocal
 import KafkaVerif.Model.ConnSpecs
 import KafkaVerif.Spec.ConnFrames
 import KafkaVerif.Model.ReaderStack
+import KafkaVerif.Model.ConnVersions
 
 namespace KV.C11
 open KV KV.Reader KV.ConnOps
@@ -277,6 +278,91 @@ theorem sequence_aligned (topic : Bytes) (es : List Exch) (c : Conn) (rest : Byt
       rw [runOps_closed topic r _ hcl]
       refine ⟨rfl, fun hall => ?_⟩
       simp [hf] at hall
+
+/-! ### the version cache (conn.go loadVersions / negotiateVersion) — Conn state next to the stream
+
+"After a broker-reported error the next operation behaves as on a fresh connection" also speaks about the versions a
+Conn remembers: an ApiVersions answer that carries an error code must not become the Conn's version map.
+`Model/ConnVersions.lean`; `strict` is the regenerated fact `Gen.ConnLegacy.loadVersionsStrict`. -/
+
+section Versions
+open KV.ConnVersions
+
+theorem load_versions_strict_holds : Gen.ConnLegacy.loadVersionsStrict = true := by decide
+
+/-- a Conn that has its versions never asks again and does not touch the stream for it -/
+theorem cached_versions_are_final (strict : Bool) (av : OpSpec) (topic : Bytes) (vc : VConn) (m : List Entry)
+    (h : vc.cache = some m) : loadVersions strict av topic vc = (some m, .ok, vc) := by
+  unfold loadVersions; rw [h]
+
+/-- the negotiation that meets a broker-reported error on its ApiVersions exchange (honest frame, any content): the
+caller gets THAT error, nothing is cached, and the Conn is exactly a fresh one positioned at the next frame — so the
+next operation, negotiating or not, behaves as on a fresh connection (it asks the broker again). -/
+theorem negotiation_error_leaves_fresh_conn (av : OpSpec) (key : Int) (cands : List Nat) (run : Nat → Conn → Outcome × Conn)
+    (topic : Bytes) (c : Conn) (hdr body rest : Bytes) (k : Int)
+    (hgood : av.good 0 = true) (hclose : av.closeOnErr = true) (hopen : c.closed = false)
+    (hstream : c.stream = hdr ++ body ++ rest) (hlen : hdr.length = 8)
+    (hsize : beInt (hdr.take 4) = body.length + 4) (hid : beInt (hdr.drop 4) = c.nextId)
+    (hk : (connDo av 0 topic c).1 = .kafka k) :
+    vRun true av key cands run topic ⟨c, none⟩ = (.kafka k, VConn.fresh rest (c.nextId + 1)) := by
+  have hac := aligned_or_closed av 0 topic c hdr body rest hgood hclose hopen hstream hlen hsize hid
+  have hst : (connDo av 0 topic c).2 = { stream := rest, nextId := c.nextId + 1, closed := false } := by
+    rcases hac with h | h
+    · exact h.2
+    · rw [hk] at h; simp [Outcome.isFail] at h
+  simp only [vRun, loadVersions, hk, hst, VConn.fresh, Bool.not_true, Bool.false_and, Bool.false_eq_true, ↓reduceIte]
+
+/-- … hence two negotiating operations in a row, the first meeting the error: the second runs exactly as the first
+operation of a fresh connection on what follows -/
+theorem next_negotiating_op_as_fresh (av : OpSpec) (key key₂ : Int) (cands cands₂ : List Nat)
+    (run run₂ : Nat → Conn → Outcome × Conn) (topic : Bytes)
+    (c : Conn) (hdr body rest : Bytes) (k : Int)
+    (hgood : av.good 0 = true) (hclose : av.closeOnErr = true) (hopen : c.closed = false)
+    (hstream : c.stream = hdr ++ body ++ rest) (hlen : hdr.length = 8)
+    (hsize : beInt (hdr.take 4) = body.length + 4) (hid : beInt (hdr.drop 4) = c.nextId)
+    (hk : (connDo av 0 topic c).1 = .kafka k) :
+    vRun true av key₂ cands₂ run₂ topic (vRun true av key cands run topic ⟨c, none⟩).2 =
+      vRun true av key₂ cands₂ run₂ topic (VConn.fresh rest (c.nextId + 1)) := by
+  rw [negotiation_error_leaves_fresh_conn av key cands run topic c hdr body rest k hgood hclose hopen hstream hlen hsize hid hk]
+
+/-- request 1: ApiVersions answered with UnsupportedVersion (35) and the one entry brokers send with it (ApiVersions
+0..3); request 2: ApiVersions answered normally (Metadata 0..1); request 3: a Metadata v1 answer (no broker, no topic) -/
+def versionsStream : Bytes :=
+  [0,0,0,16, 0,0,0,1, 0,35, 0,0,0,1, 0,18, 0,0, 0,3] ++
+  [0,0,0,16, 0,0,0,2, 0,0, 0,0,0,1, 0,3, 0,0, 0,1] ++
+  [0,0,0,16, 0,0,0,3, 0,0,0,0, 0,0,0,1, 0,0,0,0]
+
+/-- the seeded shape (C11-m8: the list that came with the error is cached): the caller does not see the broker's error
+but "no matching versions", and the next call fails the same way without asking the broker again (the stream is not
+touched); the code as it is: the broker's error, then a fresh negotiation and the answer. -/
+theorem version_cache_counterexample :
+    ((specOf "apiVersions").bind fun av => (specOf "metadata").map fun md =>
+      let bad1 := vDo false av 3 [1, 6] md [116] (VConn.fresh versionsStream 1)
+      let bad2 := vDo false av 3 [1, 6] md [116] bad1.2
+      let ok1 := vDo true av 3 [1, 6] md [116] (VConn.fresh versionsStream 1)
+      let ok2 := vDo true av 3 [1, 6] md [116] ok1.2
+      (bad1.1 == noMatch && bad2.1 == noMatch && bad2.2.conn.stream == bad1.2.conn.stream &&
+       ok1.1 == .kafka 35 && ok1.2.cache.isNone && ok2.1 == .ok && ok2.2.conn.stream == [] && ok2.2.cache == some [(3, 0, 1)])) = some true := by
+  decide
+
+/-- Everything a Conn carries from one operation to the next, and where each piece is accounted for — the fields of
+`type Conn struct`, regenerated.  A new field breaks `conn_state_accounted` until somebody has decided whether
+"the next operation behaves as on a fresh connection" speaks about it (the version cache was such a piece). -/
+def accountedFields : List (String × String) :=
+  [("conn", "the byte stream: Conn.stream / closed"), ("rbuf", "the byte stream (read buffer): Conn.stream; dropped on close: dropsBuffer"),
+   ("inflight", "LockFacts.leave, exitPath"), ("rlock", "LockFacts / released"), ("correlationID", "Conn.nextId"),
+   ("apiVersions", "VConn.cache (Model/ConnVersions.lean)"),
+   ("mutex", "guards offset"), ("offset", "the fetch position: C02 (Reader delivery) and C19 (Seek); every fetch of the C11 driver seeks first"),
+   ("wlock", "request side"), ("wbuf", "request side"), ("wb", "request side"),
+   ("wdeadline", "deadlines: observed (c17s, c11w, c2x), C06 models attach/detach"), ("rdeadline", "deadlines: observed, C06"),
+   ("clientID", "immutable"), ("topic", "immutable"), ("partition", "immutable"), ("fetchMaxBytes", "immutable"),
+   ("fetchMinSize", "immutable"), ("broker", "immutable"), ("rack", "immutable"), ("requiredAcks", "set by the caller, request side"),
+   ("transactionalID", "immutable")]
+
+theorem conn_state_accounted :
+    Gen.ConnLegacy.connFields.all (fun f => accountedFields.any (·.1 == f)) = true := by decide
+
+end Versions
 
 /-! ### nothing else reads the Conn's buffer
 
